@@ -49,6 +49,13 @@ enum LocalAct {
     BeginThenClose,
     /// waits for the peer to act (on_close)
     Wait,
+    /// polls try_close() until it yields the result: every poll repeats the close request
+    TryClose,
+}
+
+/// for the oracles a polled close is a close
+fn judged_as(l: LocalAct) -> LocalAct {
+    if l == LocalAct::TryClose { LocalAct::Close } else { l }
 }
 
 fn models() -> Models {
@@ -88,6 +95,33 @@ async fn local_script(mut handle: ConnectionHandle<()>, act: LocalAct, delay_ms:
         sim::sleep_ms(delay_ms).await;
     }
     match act {
+        LocalAct::TryClose => {
+            use fe2o3_amqp::connection::TryCloseError;
+            let gap = pick(&[1u64, 7, 50]);
+            let poll = async {
+                loop {
+                    match handle.try_close() {
+                        Ok(r) => return Some(r),
+                        Err(TryCloseError::RemoteCloseNotReceived) => sim::sleep_ms(gap).await,
+                        Err(TryCloseError::AlreadyClosed) => return None,
+                    }
+                }
+            };
+            match call("connection.try_close() polled", silent, poll).await {
+                Some(Some(r)) => {
+                    out.api_ok = r.is_ok();
+                    out.api = Some(err_string(&r));
+                    if !handle.is_closed() {
+                        sim::violation("not-closed-after-close", "try_close() returned the result of the close and is_closed() is false".into());
+                    }
+                    if !matches!(handle.try_close(), Err(TryCloseError::AlreadyClosed)) {
+                        sim::violation("try-close-twice", "try_close() after a completed try_close() did not report AlreadyClosed".into());
+                    }
+                }
+                Some(None) => sim::violation("try-close-already-closed", "the first try_close() on an open connection reported AlreadyClosed".into()),
+                None => {}
+            }
+        }
         LocalAct::Close => {
             if let Some(r) = call("connection.close()", silent, handle.close()).await {
                 out.api_ok = r.is_ok();
@@ -323,7 +357,7 @@ fn draw_peer_act() -> PeerAct {
 }
 
 fn draw_local_act() -> LocalAct {
-    pick(&[LocalAct::Close, LocalAct::Close, LocalAct::CloseWithError, LocalAct::Drop, LocalAct::BeginThenClose, LocalAct::Wait])
+    pick(&[LocalAct::Close, LocalAct::Close, LocalAct::CloseWithError, LocalAct::Drop, LocalAct::BeginThenClose, LocalAct::Wait, LocalAct::TryClose])
 }
 
 /// Judge the run from what the endpoint wrote (`d` = its direction) and what its API returned
@@ -498,7 +532,7 @@ pub async fn run_client() {
     }
     // let the endpoint finish writing whatever it is going to write
     let _ = peer.drain_for(3000).await;
-    judge(&mon, 0, pact, lact, &out, &rep, heartbeat);
+    judge(&mon, 0, pact, judged_as(lact), &out, &rep, heartbeat);
 }
 
 pub async fn run_listener() {
@@ -611,7 +645,7 @@ pub async fn run_listener() {
             sim::sleep_ms(local_delay).await;
         }
         match lact {
-            LocalAct::Close | LocalAct::BeginThenClose => {
+            LocalAct::Close | LocalAct::BeginThenClose | LocalAct::TryClose => {
                 if let Some(r) = call("listener connection.close()", silent, handle.close()).await {
                     out.api_ok = r.is_ok();
                     out.api = Some(err_string(&r));
